@@ -66,6 +66,9 @@ fn sized_a<T: Copy + Tr + 'static>(v: T) {
     check_sized(&a, 1);
     let a = unsafe { Arc::from_raw(Arc::into_raw(a)) };
     check_sized(&a, 1);
+    // arc-swap's RefCnt glue hands the same block back
+    let a = unsafe { <Arc<T> as arc_swap::RefCnt>::from_ptr(<Arc<T> as arc_swap::RefCnt>::into_ptr(a)) };
+    check_sized(&a, 1);
     assert!(Arc::try_unwrap(a).is_ok());
     all_freed(2);
     // Arc::new -> raw cast to dyn -> drop as Arc<dyn Tr>
